@@ -1,0 +1,21 @@
+//go:build verif
+
+package stats
+
+// Contracts for the statistics counters, checked by /verif/govc (comment-only).
+// P4 (C14): the counters are shared by all request handlers without a lock;
+// every access to them in code under contract goes through sync/atomic (a
+// plain load or store of either field is an obligation that cannot hold).
+
+//@ protected stats.Op.count by false @C14
+//@ protected stats.Op.nanos by false @C14
+
+//@ spec (*Op).Record
+//@   props C14 C11
+//@   requires op != nil
+//@   modifies op.count, op.nanos
+
+//@ spec (*Op).Reset
+//@   props C14 C11
+//@   requires op != nil
+//@   modifies op.count, op.nanos
